@@ -24,6 +24,7 @@ import (
 	"go.brendoncarroll.net/p2p/s/p2pkeswarm"
 	"go.brendoncarroll.net/p2p/s/quicswarm"
 	"go.brendoncarroll.net/p2p/s/sshswarm"
+	"go.brendoncarroll.net/p2p/s/wlswarm"
 	"go.brendoncarroll.net/p2p/s/udpswarm"
 	realssh "golang.org/x/crypto/ssh"
 	evilssh "verifharness/evilssh"
@@ -46,7 +47,9 @@ func secureOracle(r *rand.Rand, n int, tier string, infile string) (cases int, f
 		}
 	}
 	for i := 0; i < n; i++ {
-		switch (oracleOffset + i) % 5 {
+		switch (oracleOffset + i) % 6 {
+		case 5:
+			cases += wlCase(r, bad)
 		case 4:
 			cases += quicEvilCase(bad)
 		case 0:
@@ -289,6 +292,95 @@ func sshHonestCase(r *rand.Rand, bad func(string, ...any)) int {
 			}
 		case <-timeout:
 			return 1
+		}
+	}
+	return 1
+}
+
+// wlCase: wlswarm.WrapSecureAsk around a secure ask swarm (quicswarm over an in-memory transport). Node A's whitelist
+// names A itself and B (a list of cluster members) and so rejects C. Whatever reaches A's Receive or ServeAsk callbacks
+// must come from an allowed, authenticated sender; C's tells and asks must not, B's must; and A itself cannot tell or
+// ask C.
+func wlCase(r *rand.Rand, bad func(string, ...any)) int {
+	realm := memswarm.NewRealm(memswarm.WithQueueLen(64), memswarm.WithMTU(4096))
+	var nodes []*quicswarm.Swarm[memswarm.Addr]
+	for i := 0; i < 3; i++ {
+		q, err := quicswarm.New[memswarm.Addr](realm.NewSwarm(), testPrivKey(800+10*r.Intn(9)+i))
+		if err != nil {
+			return 1
+		}
+		defer q.Close()
+		nodes = append(nodes, q)
+	}
+	idA, idB, idC := nodes[0].LocalAddrs()[0].ID, nodes[1].LocalAddrs()[0].ID, nodes[2].LocalAddrs()[0].ID
+	allowSelf := r.Intn(2) == 0
+	allowed := func(a quicswarm.Addr[memswarm.Addr]) bool {
+		return a.ID == idB || (allowSelf && a.ID == idA)
+	}
+	wl := wlswarm.WrapSecureAsk[quicswarm.Addr[memswarm.Addr], x509.PublicKey](nodes[0], allowed)
+	var mu sync.Mutex
+	var tells, asks []p2p.PeerID
+	go func() {
+		for {
+			if err := wl.Receive(context.Background(), func(m p2p.Message[quicswarm.Addr[memswarm.Addr]]) {
+				mu.Lock()
+				tells = append(tells, m.Src.ID)
+				mu.Unlock()
+			}); err != nil {
+				return
+			}
+		}
+	}()
+	go func() {
+		for {
+			if err := wl.ServeAsk(context.Background(), func(_ context.Context, resp []byte, m p2p.Message[quicswarm.Addr[memswarm.Addr]]) int {
+				mu.Lock()
+				asks = append(asks, m.Src.ID)
+				mu.Unlock()
+				return copy(resp, "pong")
+			}); err != nil {
+				return
+			}
+		}
+	}()
+	addrA := nodes[0].LocalAddrs()[0]
+	resp := make([]byte, 64)
+	for _, who := range []int{1, 2} {
+		ctx, cf := context.WithTimeout(context.Background(), 2*time.Second)
+		nodes[who].Tell(ctx, addrA, p2p.IOVec{[]byte(fmt.Sprintf("tell-from-%d", who))})
+		n, err := nodes[who].Ask(ctx, resp, addrA, p2p.IOVec{[]byte(fmt.Sprintf("ask-from-%d", who))})
+		cf()
+		if who == 2 && err == nil {
+			bad("C04 wlswarm: an Ask by a peer the whitelist rejects was answered (%q)", resp[:n])
+		}
+		if who == 1 && (err != nil || string(resp[:n]) != "pong") {
+			bad("C04 wlswarm: an Ask by an allowed peer was not answered (n=%d err=%v)", n, err)
+		}
+	}
+	time.Sleep(100 * time.Millisecond)
+	ctx, cf := context.WithTimeout(context.Background(), time.Second)
+	if err := wl.Tell(ctx, nodes[2].LocalAddrs()[0], p2p.IOVec{[]byte("to-c")}); err == nil {
+		bad("C04 wlswarm: Tell to a peer the whitelist rejects reported success")
+	}
+	if _, err := wl.Ask(ctx, resp, nodes[2].LocalAddrs()[0], p2p.IOVec{[]byte("to-c")}); err == nil {
+		bad("C04 wlswarm: Ask to a peer the whitelist rejects reported success")
+	}
+	cf()
+	mu.Lock()
+	defer mu.Unlock()
+	seenB := false
+	for _, id := range tells {
+		if id == idC {
+			bad("C04 wlswarm: a tell from a peer the whitelist rejects reached the Receive callback")
+		}
+		seenB = seenB || id == idB
+	}
+	if !seenB {
+		bad("C04 wlswarm: the tell of an allowed peer never reached the Receive callback")
+	}
+	for _, id := range asks {
+		if id == idC {
+			bad("C04 wlswarm: an ask from a peer the whitelist rejects reached the ServeAsk callback")
 		}
 	}
 	return 1
